@@ -1105,7 +1105,7 @@ def randcap(nrand, ra, dec, rad, get_radius=False, dorot=False, rng=None):
     rad: float
         radius of the cap, same units as ra,dec
     get_radius: bool, optional
-        if true, return radius of each point in radians
+        if true, return radius of each point in degrees
     dorot: bool
         If dorot is True, generate the points on the equator and rotate them to
         be centered at the desired location.  This is the default when the dec
@@ -1184,7 +1184,9 @@ def randcap(nrand, ra, dec, rad, get_radius=False, dorot=False, rng=None):
         atbound(rand_ra, 0.0, 360.0)
 
     if get_radius:
-        np.rad2deg(rand_r, rand_r)
+        if not dorot:
+            # put in degrees; in the rotated branch they already are
+            np.rad2deg(rand_r, rand_r)
         return rand_ra, rand_dec, rand_r
     else:
         return rand_ra, rand_dec
